@@ -243,7 +243,9 @@ def pduOp (op : String) (args : List String) : Option String :=
     if !rest.isEmpty then none else
     match v, Smpp.Spec.specOf L.id with
     | .header h :: vals, some op =>
-      if !(vals.all Smpp.Spec.expressible) || !h.seqPos then some "not-carried" else
+      -- outside the property's domain: the library caps short_message at 140 octets (MaxShortMessageLength)
+      let over140 := vals.any fun x => match x with | .sm m => m.msg.length > 140 | _ => false
+      if !(vals.all Smpp.Spec.expressible) || !h.seqPos || over140 then some "not-carried" else
       -- a field the Go codec skips is still a parameter of the specification (1-octet integer)
       let body := vals.flatMap fun x => match x with
         | .skipped n => [UInt8.ofNat n]
